@@ -110,6 +110,7 @@ struct Inflight {
 struct Inner {
     socks: HashMap<SocketAddr, UnboundedSender<Dgram>>,
     names: HashMap<SocketAddr, String>,
+    raws: std::collections::HashSet<SocketAddr>,
     dirs: HashMap<(SocketAddr, SocketAddr), DirState>,
     default_dir: DirCfg,
     rules: Vec<Rule>,
@@ -204,6 +205,7 @@ impl SimNet {
             inner: Arc::new(Mutex::new(Inner {
                 socks: HashMap::new(),
                 names: HashMap::new(),
+                raws: Default::default(),
                 dirs: HashMap::new(),
                 default_dir,
                 rules: Vec::new(),
@@ -246,6 +248,7 @@ impl SimNet {
         let mut g = self.inner.lock();
         g.socks.insert(addr, tx);
         g.names.insert(addr, name.to_string());
+        g.raws.insert(addr);
         rx
     }
 
@@ -416,6 +419,9 @@ impl SimNet {
         m.insert("alts".into(), alts_json);
         m.insert("amb".into(), json!(amb));
         m.insert("nth".into(), json!(nth));
+        if g.raws.contains(&from) {
+            m.insert("raw".into(), json!(true));
+        }
 
         let _d = g.dirs.get_mut(&(from, to)).unwrap();
 
